@@ -92,7 +92,50 @@ def run_case(c):
     return rec
 
 
+class _Script:
+    """Scripted replacement of random.random: the draws of a TwinWalkSM behaviour, in order."""
+
+    def __init__(self, values):
+        self.values, self.used = list(values), 0
+
+    def next(self):
+        if self.used >= len(self.values):
+            raise IndexError("random source exhausted")
+        v = self.values[self.used]
+        self.used += 1
+        return v
+
+
+def run_walk(c):
+    """Replay of one TwinWalkSM behaviour on Surrogates.twin_surrogates (one series): the twin walk kernel draws
+    from Python's `random.random`, which is replaced by the scripted draws (c + 1/2) / m for the duration of
+    the call."""
+    import random as pyrandom
+    from pyunicorn.timeseries import Surrogates
+    x = np.array([[16.0 * v + t for t, v in enumerate(c["p"])]])
+    rec = dict(c)
+    o = {"exc": "", "twins": [], "surr": [], "used": 0}
+    s = Surrogates(original_data=x, silence_level=3)
+    script = _Script([(d[1] + 0.5) / d[0] for d in c["draws"]])
+    saved = pyrandom.random
+    try:
+        s.embedding = s.embed_time_series_array(s.original_data, c["dim"], 1)
+        o["twins"] = [[int(v) for v in t] for t in s.twins(float(c["thr"]), min_dist=c["md"])[0]]
+        pyrandom.random = script.next
+        surr = s.twin_surrogates(dimension=c["dim"], delay=1, threshold=float(c["thr"]), min_dist=c["md"])
+        o["surr"] = [int(round(v)) for v in surr[0]]
+    except Exception as ex:
+        o["exc"] = type(ex).__name__
+    finally:
+        pyrandom.random = saved
+    o["used"] = script.used
+    rec["obs"] = o
+    return rec
+
+
 def _nontrivial(rec):
+    if rec["blk"] == "walk":
+        return len(rec["draws"]) >= 2
     if rec["blk"] == "spec":
         return True
     return any(len(t) for t in rec["obs"].get("twins", []) + rec["obs"].get("twins2", []))
@@ -112,10 +155,27 @@ def main(ctx):
     ctx.extra["scope"] = open(os.path.join(os.path.dirname(__file__), "..", "spec", cfg + ".cfg")).read().split()
     recs = ctx.run_cases("props.c15.run_case", cases)
     ctx.validate("Val_C15", "Val_C15", recs, nontrivial=_nontrivial)
+    # ---- the twin walk, choice by choice: behaviours of TwinWalkSM replayed with a scripted random source
+    from vlib.core import Machinery
+    r = ctx.tlc("TwinWalkSM", "Gen_C15w_" + ctx.tier, workers=1)
+    if r.error or r.violated or r.rc != 0:
+        raise Machinery("TwinWalkSM: design-level check / GEN failed\n" + r.out[-2000:])
+    hs = [t for t in r.tuples if t and t[0] == "H"]
+    ctx.stages.append({"stage": "DESIGN+GEN TwinWalkSM/Gen_C15w_" + ctx.tier + " (WalkInv, DeterminedByDraws)",
+                       "states": r.distinct, "behaviours": len(hs)})
+    walks = [{"case": "w%d" % k, "blk": "walk", "p": list(h[1]), "dim": h[2], "md": h[3], "thr": h[4],
+              "draws": [list(d) for d in h[5]]} for k, h in enumerate(hs)]
+    wrecs = ctx.run_cases("props.c15.run_walk", walks)
+    ctx.validate("Val_C15w", "Val_C15w_" + ctx.tier, wrecs, stage="Val_C15w", nontrivial=_nontrivial)
 
 
 def replay(ctx, rep):
     rec = rep["record"]
+    if rec.get("blk") == "walk":
+        case = {k: v for k, v in rec.items() if k != "obs"}
+        wrecs = ctx.run_cases("props.c15.run_walk", [case], jobs=1)
+        ctx.validate("Val_C15w", "Val_C15w_thorough", wrecs, stage="Val_C15w", nontrivial=_nontrivial)
+        return
     case = {k: v for k, v in rec.items() if k != "obs"}
     recs = ctx.run_cases("props.c15.run_case", [case], jobs=1)
     ctx.validate("Val_C15", "Val_C15", recs, nontrivial=_nontrivial)
